@@ -436,7 +436,8 @@ Definition T_gabi (choice : nat -> option gabi_args) (e : elf) : elf :=
                              | Some a => gabi_compress (e_le e) (e_is64 e) a s
                              | None => s end) 0 (e_secs e)).
 
-(* --- legacy GNU: chosen by NAME, so that ".rel[a].debug_X" follows ".debug_X" --- *)
+(* --- legacy GNU: a chosen ".debug_X" becomes ".zdebug_X"; objcopy renames its
+       relocation section ".rel[a].debug_X" to ".rel[a].zdebug_X" along with it --- *)
 Record zgnu_args := mkZgnu { z_offset : Z; z_blob : list Z; z_tail : list Z }.
 Definition zgnu_compress (a : zgnu_args) (s : sec) : sec :=
   mkSec (zname (s_name s)) (s_type s) (s_flags s) (s_addr s) (z_offset a)
@@ -454,20 +455,28 @@ Definition reloc_target (n : list Z) : option (list Z * list Z) :=
   | None => match strip_prefix p_rel n with Some t => Some (p_rel, t) | None => None end
   end.
 
-Definition zgnu_sec (choice : list Z -> option zgnu_args) (s : sec) : sec :=
-  if is_prefix p_debug (s_name s) then
-    match choice (s_name s) with Some a => zgnu_compress a s | None => s end
-  else if is_reloc_sec s then
-    match reloc_target (s_name s) with
-    | Some (pre, t) =>
-        if is_prefix p_debug t then
-          match choice t with Some _ => rename (pre ++ zname t) s | None => s end
-        else s
-    | None => s
-    end
-  else s.
-Definition T_zgnu (choice : list Z -> option zgnu_args) (e : elf) : elf :=
-  mkElf (e_le e) (e_is64 e) (e_machine e) (e_flags e) (map (zgnu_sec choice) (e_secs e)).
+Fixpoint chosen_names_from {A} (choice : nat -> option A) (i : nat) (l : list sec) : list (list Z) :=
+  match l with
+  | [] => []
+  | s :: r => (match choice i with Some _ => [s_name s] | None => [] end)
+              ++ chosen_names_from choice (S i) r
+  end.
+Definition name_in (n : list Z) (l : list (list Z)) : bool := existsb (bytes_eqb n) l.
+
+Definition zgnu_sec (choice : nat -> option zgnu_args) (zn : list (list Z)) (i : nat) (s : sec) : sec :=
+  match choice i with
+  | Some a => zgnu_compress a s
+  | None =>
+      if is_reloc_sec s then
+        match reloc_target (s_name s) with
+        | Some (pre, t) => if name_in t zn then rename (pre ++ zname t) s else s
+        | None => s
+        end
+      else s
+  end.
+Definition T_zgnu (choice : nat -> option zgnu_args) (e : elf) : elf :=
+  mkElf (e_le e) (e_is64 e) (e_machine e) (e_flags e)
+        (map_idx (zgnu_sec choice (chosen_names_from choice 0 (e_secs e))) 0 (e_secs e)).
 
 (* --- separate debug file: a section carrying the link is appended --- *)
 Definition link_section (name body : list Z) (off : Z) (tail : list Z) : sec :=
